@@ -113,12 +113,27 @@ def classifier_tables(rep, F, rule='R-TABLE'):
                 tt = term
                 if tt[0] == 'discr' and tt[1][0] == 'call' and tt[1][1].endswith('classify'):
                     cls = tt[1]
-        if cls is None:
+        # the classification may also be written with the predicate methods (is_nan / is_infinite / ...)
+        preds = {}
+        for atoms, out in paths:
+            for term, _ in atoms:
+                for st_ in TB.subterms(term):
+                    if st_[0] == 'call' and re.search(r'::(is_nan|is_infinite|is_finite|is_normal|is_subnormal)$', TB._plain(st_[1])) and st_[2] and TB.strip_refs(st_[2][0]) == TB.T('param', 1):
+                        preds[st_] = TB._plain(st_[1]).rsplit('::', 1)[1]
+        if cls is None and not preds:
             rep.undecided(rule, fn.key + ':FpCategory', 'no switch on classify() found; classification shape not recognised', fn.where())
             continue
+        normal_fn = F.fns.get('parsing::parse_from_' + m.group(1))
+        normal_handles_subnormal = normal_fn is not None and any('subnormal' in (t['callee'].get('resolved') or '') for b, t in normal_fn.calls())
         for cat in CATS:
             n += 1
-            ev = TB.Evaluator(F.raw['enums'], {cls: ('variant', 'FpCategory', cat)})
+            env = {}
+            if cls is not None:
+                env[cls] = ('variant', 'FpCategory', cat)
+            for term_, which in preds.items():
+                env[term_] = int({'is_nan': cat == 'Nan', 'is_infinite': cat == 'Infinite', 'is_finite': cat not in ('Nan', 'Infinite'),
+                                  'is_normal': cat == 'Normal', 'is_subnormal': cat == 'Subnormal'}[which])
+            ev = TB.Evaluator(F.raw['enums'], env)
             key = '%s:FpCategory::%s' % (fn.key, cat)
             try:
                 atoms, out = ev.select(paths)
@@ -130,7 +145,7 @@ def classifier_tables(rep, F, rule='R-TABLE'):
                 ok = oc.startswith('Err')
                 want = 'Err(..)'
             elif cat == 'Subnormal':
-                ok = oc.startswith('Ok(call:') and 'subnormal' in oc
+                ok = oc.startswith('Ok(call:') and ('subnormal' in oc or (normal_handles_subnormal and 'parse_from_' + m.group(1) in oc))
                 want = 'Ok(subnormal routine)'
             else:
                 ok = oc.startswith('Ok(call:') and 'subnormal' not in oc and 'parse_from_' + m.group(1) in oc
